@@ -396,6 +396,10 @@ func countValues(rec int, wide bool) []cval {
 	add("ff:1", csForm(1, 9))
 	add("ff:2^32", csForm(1<<32, 9))
 	add("ff:2^62+1", csForm(1<<62+1, 9))
+	// the largest positive int64 and its neighbours: "offset + length" sums wrap negative
+	add("ff:2^63-1", csForm(1<<63-1, 9))
+	add("ff:2^63-64", csForm(1<<63-64, 9))
+	add("ff:2^63-128", csForm(1<<63-128, 9))
 	add("ff:2^63", csForm(1<<63, 9))
 	add("ff:2^63+1", csForm(1<<63+1, 9))
 	add("ff:2^64-1", csForm(^uint64(0), 9))
